@@ -308,6 +308,8 @@ def finish(prop, tier, seed, level, summaries, violations, t0, assumptions, inco
 
     if inconclusive is None and minobs:
         inconclusive = "minimum observation not reached: " + "; ".join(minobs)
+    if inconclusive is None and not samples:
+        inconclusive = "no stage offered a sample case (evidence would not show what was explored)"
     if inconclusive is None and (evaluations < 1 or distinct < 2):
         inconclusive = "too few observations (evaluations=%d distinct=%d)" % (evaluations, distinct)
 
